@@ -30,12 +30,15 @@ func (s *JSONSerializer) Serialize(msg wamp.Message) ([]byte, error) {
 
 // Deserialize decodes a json payload into a Message.
 func (s *JSONSerializer) Deserialize(data []byte) (wamp.Message, error) {
-	var v []any
-	err := codec.NewDecoderBytes(data, jh).Decode(&v)
+	var item any
+	err := codec.NewDecoderBytes(data, jh).Decode(&item)
 	if err != nil {
 		return nil, err
 	}
-	if len(v) == 0 {
+	// A message is a list. Decoding straight into a []any would also accept a
+	// map, which the codec flattens into key, value, key, value, ...
+	v, ok := item.([]any)
+	if !ok || len(v) == 0 {
 		return nil, errors.New("invalid message")
 	}
 
